@@ -148,6 +148,25 @@ pub fn plan(arch: &Path, rng: &mut Rng, flips_per_file: usize, include_header: b
                 out.push(DamageCase { rel: rel.clone(), damage: Damage::BitFlip(rng.below(bytes.len()), rng.below(8) as u8) });
             }
         }
+        // directed: a flip after which the block STILL DECOMPRESSES, to other bytes of the same length (raw
+        // Snappy has no checksum; a flip inside a literal run does this) — searched from the end of the file,
+        // so that in a combined block it is the LAST file's bytes that change, not the first one read
+        if class == "block" {
+            if let Ok(orig) = snap::raw::Decoder::new().decompress_vec(&bytes) {
+                'search: for pos in (0..bytes.len()).rev() {
+                    for bit in 0..8u8 {
+                        let mut b = bytes.clone();
+                        b[pos] ^= 1 << bit;
+                        if let Ok(d) = snap::raw::Decoder::new().decompress_vec(&b) {
+                            if d.len() == orig.len() && d != orig {
+                                out.push(DamageCase { rel: rel.clone(), damage: Damage::BitFlip(pos, bit) });
+                                break 'search;
+                            }
+                        }
+                    }
+                }
+            }
+        }
     }
     out
 }
@@ -198,9 +217,17 @@ pub fn scenario(seed: u64, report: &mut Report, sig: &'static str) -> (Scenario,
     let mut rng = Rng::new(seed);
     let go = GenOpts { max_nodes: 9, block: 8, cap: 6, max_depth: 3, ..Default::default() };
     let steps = gen_history(&mut rng, 5, &go, seed % 3 == 0, seed % 2 == 0);
-    // end on a completed backup so that there is a newest complete version
+    // end on a completed backup so that there is a newest complete version; make sure it has a combined
+    // block shared by several small files (read more than once during one restore)
     let mut steps = steps;
-    steps.push(Step::Backup(BackupParamsLite { hunk: 3, block: 8, cap: 6 }));
+    if let Some(mut t) = steps.iter().rev().find_map(|s| if let Step::SetTree(t) = s { Some(t.clone()) } else { None }) {
+        for (i, body) in [b"k1x", b"k2y", b"k3z", b"k4w"].iter().enumerate() {
+            let name = format!("k{i}");
+            t.nodes.insert(format!("/{name}"), Node { comps: vec![name], kind: NodeKind::File(body.to_vec()), mode: 0o644, mtime_ns: 1_650_000_000_000_000_000 + i as i64, uid: 0, gid: 0 });
+        }
+        steps.push(Step::SetTree(t));
+    }
+    steps.push(Step::Backup(BackupParamsLite { hunk: 4, block: 8, cap: 6 }));
     let case_id = json!({"case_seed": seed, "history": history_json(&steps)});
     (build_scenario(&steps, report, &case_id, sig), case_id)
 }
@@ -446,7 +473,10 @@ pub fn run_c10(tier: &str, seed: u64, report: &mut Report) {
                         }
                         break;
                     }
-                    if is_touched && !restored_ok && !has_error {
+                    // errors that name a file (`RestoreFileBlock { apath, .. }`) only count for that file
+                    let mine = format!("event error restore-file-block:{}:", hex::encode(o.apath.as_bytes()));
+                    let reported = rr.events.iter().any(|e| e.starts_with(&mine) || (e.starts_with("event error") && !e.starts_with("event error restore-file-block:")));
+                    if is_touched && !restored_ok && !reported {
                         report.oracle_fail(&format!("damage:silently-dropped-or-altered:{sigbase}"), case.clone(), "a file whose hunk or block was damaged was dropped or altered without any error being reported", json!({"band": band_name(b), "apath": o.apath, "restored": got.contains_key(o.apath.as_str())}));
                         break;
                     }
